@@ -7,6 +7,7 @@ import Bng.Model.Teardown
     new radius|noradius                    => ok
     mk s1 m1 auth|unauth ip|noip           => ok id=<id> <snapshot>
     padt s1 m2 | term s1 | termid <id> | termmac m1 | termuser u1 | termall   => <snapshot>
+    tpark A s1 => parked|done <snapshot>      tresume A => done <snapshot>   (a TerminateSession call held inside its PADT)
     snapshot: stops=<s1:n,…|-> ebpf=<…> padt=<…> held=<s1,…|-> sess=<id:s1,…|->
 -/
 namespace Bng.Drv.TeardownDrv
@@ -30,6 +31,9 @@ def showSnap (s : TD) : String :=
     ",".intercalate (ids.map fun id => s!"{id}:s{(AMap.lookup s.live id).getD 0}")
   s!"stops={showCounts s.stops} ebpf={showCounts s.ebpf} padt={showCounts s.padt} held={h} sess={ss}"
 
+def tagOf (t : String) : Option Nat :=
+  match t with | "A" => some 0 | "B" => some 1 | _ => none
+
 def parseOp (toks : List String) : Option Op :=
   match toks with
   | ["mk", n, m, a, i] => do
@@ -42,6 +46,8 @@ def parseOp (toks : List String) : Option Op :=
   | ["termuser", u] => (parseTagged 'u' u).map .termUser
   | ["termall"] => some .termAll
   | ["authfail", n] => (parseTagged 's' n).map .authFail
+  | ["tpark", t, n] => do let t ← tagOf t; let n ← parseTagged 's' n; pure (.tpark t n)
+  | ["tresume", t] => (tagOf t).map .tresume
   | _ => none
 
 /-! ### monitor: implementation observations only -/
@@ -55,6 +61,8 @@ structure Known where
 structure Mon where
   radius : Bool := false
   objs : List Known := []
+  /-- sessions a held TerminateSession call is at work on (tag, name): from the `parked` answers -/
+  busy : List (Nat × Nat) := []
 
 def field (impl key : String) : String :=
   match (splitTokens impl).find? (fun t => t.startsWith (key ++ "=")) with
@@ -110,17 +118,31 @@ def monitor (mn : Mon) (op : Op) (impl : String) : Mon × List (String × String
   let gone := fun (n : Nat) => !(held.contains n) && !(live.contains n)
   let vt := match op with
     | .term n =>
-      if mn.objs.any (·.name == n) && !gone n then
+      -- a call that finds another TerminateSession at work on the session returns at once; that one finishes the job
+      if mn.objs.any (·.name == n) && !gone n && !(mn.busy.any (·.2 == n)) then
         [("not-terminated", "none", s!"TerminateSession(s{n}) returned but s{n} still holds its address or table entry")] else []
     | .padt n m =>
       if mn.objs.any (fun o => o.name == n && o.mac == m) && !gone n then
         [("not-terminated", "none", s!"client PADT from the owner did not terminate s{n}")] else []
     | .termAll =>
-      if !live.isEmpty || !held.isEmpty then
+      -- sessions a held TerminateSession call is at work on are that call's to finish
+      let mine := fun (n : Nat) => mn.busy.any (·.2 == n)
+      if !(live.all mine) || !(held.all mine) then
         [("not-terminated", "none", "TerminateAll left sessions or addresses behind")] else []
     | _ => []
-  let mn := { mn with objs := mn.objs.map fun (o : Known) => if get ebpf o.name ≥ 1 then { o with torn := true } else o }
-  (mn, vs ++ vt)
+  -- a held call that goes on leaves its session terminated
+  let vr := match op with
+    | .tresume t =>
+      match mn.busy.find? (·.1 == t) with
+      | some (_, n) => if !gone n then [("not-terminated", "none", s!"the held TerminateSession(s{n}) finished but s{n} still holds its address or table entry")] else []
+      | none => []
+    | _ => []
+  let busy := match op with
+    | .tpark t n => if impl.startsWith "parked" then (t, n) :: mn.busy else mn.busy
+    | .tresume t => mn.busy.filter (·.1 != t)
+    | _ => mn.busy
+  let mn := { mn with busy := busy, objs := mn.objs.map fun (o : Known) => if get ebpf o.name ≥ 1 then { o with torn := true } else o }
+  (mn, vs ++ vt ++ vr)
 
 structure St where
   model : Option TD := none
@@ -134,6 +156,9 @@ def step (st : St) (toks : List String) (impl : String) : St × LineResult :=
     | some m, some op =>
       match op with
       | .mk n _ _ _ => if (AMap.lookup m.objs n).isSome then (st, { modelObs := "badop" }) else go st m op impl
+      | .tpark t n =>
+        if (AMap.lookup m.parked t).isSome || !(AMap.lookup m.objs n).isSome then (st, { modelObs := "badop" }) else go st m op impl
+      | .tresume t => if (AMap.lookup m.parked t).isSome then go st m op impl else (st, { modelObs := "badop" })
       | _ => go st m op impl
     | _, _ => (st, { modelObs := "badop" })
 where
@@ -142,6 +167,8 @@ where
       let (mon', vs) := monitor st.mon op impl
       let shown := match op with
         | .mk n _ _ _ => s!"ok id={((AMap.lookup m'.objs n).map (·.id)).getD 0} {showSnap m'}"
+        | .tpark t _ => (if (AMap.lookup m'.parked t).isSome && !(AMap.lookup m.parked t).isSome then "parked " else "done ") ++ showSnap m'
+        | .tresume _ => "done " ++ showSnap m'
         | _ => showSnap m'
       ({ model := some m', mon := mon' }, { modelObs := shown, viols := vs })
 
